@@ -98,6 +98,17 @@ def run(ctx):
         s['a2b'] = dict(rules=[dict(kind='data', nth=1, upto=n + lost_retx, act='drop')])
         s['tag'] = 'silent-backoff-%d-n%d-lost%d' % (k, n, lost_retx)
         scs.append(s)
+    # a timeout DURING fast recovery: the first segment of a flight is lost, the duplicate ACKs of the others trigger the fast
+    # retransmission, which is lost too, and so are the following retransmissions: from then on the peer is silent, and every
+    # timeout may send exactly one segment (the collapse of the congestion window must survive leaving fast recovery)
+    for k in range(ctx.pick(4, 12)):
+        i += 1
+        n = [10, 8, 6, 10][k % 4]
+        lost = [3, 2, 4, 1][k % 4]
+        s = flight_scenario(rng, i, n, [200, 576][k % 2], [1], k % 2 == 1, ['', 'reno', 'cubic'][k % 3] if ctx.thorough() else '')
+        s['a2b'] = dict(rules=[dict(kind='data', nth=1, act='drop'), dict(kind='data', nth=n + 1, upto=n + lost, act='drop')])
+        s['tag'] = 'rto-in-recovery-%d-n%d-lost%d' % (k, n, lost)
+        scs.append(s)
     # paced writes: single segments written less than one RTO apart, each acknowledged before the next; one of the late
     # ones is lost with too few followers for a fast retransmit (the retransmission timer has been stopped and re-armed
     # several times by then: the 200 ms lower bound counts from the LAST transmission of the segment, not from an earlier arming)
